@@ -170,12 +170,20 @@ def _piece_records(rng, gseq, iv, n):
         out.append((gs, ref, alt))
     return out
 
-def gen_fusion_case2(rng, coding_p=0.8, multi_p=0.35):
+def gen_fusion_case2(rng, coding_p=0.8, multi_p=0.35, inter_p=0.4):
     for _ in range(400):
-        world = G.gen_world(rng, n_chrom=1, max_genes=3, coding_p=coding_p, small=True, sec_p=0.15, nf_p=0.35)
+        # 40 %: donor and acceptor genes on DIFFERENT chromosomes (two independently drawn chromosomes: the sequences
+        # differ at every gene's coordinates, so bases cut from the wrong chromosome show up in the peptides)
+        n_chrom = 2 if rng.random() < inter_p else 1
+        world = G.gen_world(rng, n_chrom=n_chrom, max_genes=3 if n_chrom == 1 else 2, coding_p=coding_p, small=True,
+                            sec_p=0.15, nf_p=0.35)
         if len(world['genes']) < 2:
             continue
-        gd, ga = rng.sample(world['genes'], 2)
+        if n_chrom == 2:
+            gd = rng.choice(world['genes'])
+            ga = rng.choice([g for g in world['genes'] if g['chrom'] != gd['chrom']])
+        else:
+            gd, ga = rng.sample(world['genes'], 2)
         td = rng.choice(gd['transcripts']); ta = rng.choice(ga['transcripts'])
         if G.tx_len(td) < 40 or G.tx_len(ta) < 30:
             continue
@@ -241,7 +249,8 @@ def gen_fusion_case2(rng, coding_p=0.8, multi_p=0.35):
                 kind, _, _ = CG.map_record(gene, t, gs, gs + len(ref))
                 if kind != 'outside':
                     rows.append([gene['id'], gs + 1, CG.var_id(gs, ref, alt), ref, alt, t['id'], gene['name']])
-        tag = 'fusion:%s/%s' % fusions[0]['kinds'] + ('+multi' if len(fusions) > 1 else '') + ('+same' if same_bp and len(fusions) > 1 else '')
+        tag = 'fusion:%s/%s' % fusions[0]['kinds'] + ('+multi' if len(fusions) > 1 else '') + ('+same' if same_bp and len(fusions) > 1 else '') + \
+              ('+interchrom' if any(CG.find_gene(world, f['acc_gene'])['chrom'] != gd['chrom'] for f in fusions) else '')
         return {'world': world, 'gvf': rows, 'gene': gd['id'], 'target': td['id'], 'tag': tag, 'fusions': fusions}
     raise RuntimeError('fusion generator failed')
 
